@@ -1,9 +1,7 @@
 (* C08 — no datagram sequence can crash or wedge a serving worker. Statements only. *)
 Require Import RV.Model.Bytes RV.Gen.Tables RV.Model.Merkle RV.Model.Keys RV.Model.Server
         RV.Spec.MerkleGoals RV.Spec.ServerGoals.
-Require Import RV.Proofs.RequestFacts RV.Proofs.ServerFacts RV.Proofs.SitesFacts.
-Require Import RV.Gen.Sites RV.Model.SiteMap.
-From Coq Require Import List String.
+Require Import RV.Proofs.RequestFacts RV.Proofs.ServerFacts.
 Local Open Scope N_scope.
 
 (* For every queue of datagrams, every log level (the debug! argument nonce[0..4] is evaluated
@@ -44,6 +42,8 @@ Proof.
   exists s1. eexists. exists s2, lg2. split; [exact E1|exact E2].
 Qed.
 Print Assumptions C08_still_serves.
+
+Require Import RV.Proofs.SitesFacts RV.Gen.Sites RV.Model.SiteMap.
 
 (* the model has the panics the code has: every panic-capable expression (unwrap, expect, assert,
    panic!, range slice) in today's scan of the modelled files is in the reviewed site map *)
